@@ -79,7 +79,7 @@ func run(c *hc.Ctx) error {
 	if err := k.RunDirected(directed()); err != nil {
 		return err
 	}
-	if err := k.RunRandom(c.N(3000, 150000)); err != nil {
+	if err := k.RunRandom(c.N(5000, 300000)); err != nil {
 		return err
 	}
 	if c.Thorough() {
